@@ -60,11 +60,16 @@ type voteFixture struct {
 }
 
 func newVoteFixture(n int, epoch, seq uint64, schnorrKey bool) (*voteFixture, error) {
+	// elections would reshuffle the group; C16 owns them
+	return newVoteFixtureWith(n, epoch, seq, schnorrKey, 1000*time.Hour, time.Minute)
+}
+
+func newVoteFixtureWith(n int, epoch, seq uint64, schnorrKey bool, period, timeout time.Duration) (*voteFixture, error) {
 	spec := world.DefaultSpec(1, n)
 	spec.Epoch, spec.Sequence = epoch, seq
 	spec.BtcKeys = []world.BtcKey{world.NewBtcKey(0, schnorrKey)}
-	// elections would reshuffle the group; C16 owns them
-	spec.RelayerParams.ElectingPeriod = 1000 * time.Hour
+	spec.RelayerParams.ElectingPeriod = period
+	spec.RelayerParams.AcceptProposerTimeout = timeout
 	s, err := world.NewSim(spec)
 	if err != nil {
 		return nil, err
@@ -269,7 +274,7 @@ func canonicalBitmapLen(n int) int {
 }
 
 func (f *voteFixture) memberIdx(bech string) int {
-	for i := 0; i <= f.n+8; i++ {
+	for i := 0; i <= f.n+16; i++ {
 		if world.NewAccount(world.DomRelayer, i).Bech32() == bech {
 			return i
 		}
@@ -381,6 +386,10 @@ func (f *voteFixture) buildVote(s VoteSpec) (*builtVote, error) {
 		return nil, err
 	}
 	n := len(rv.Voters)
+	if s.Class == "honest-all" {
+		// a full honest vote of whatever the group is right now
+		s.Marks, s.Signers = seqInts(n), honestSigners(seqInts(n))
+	}
 	body := f.body(s.Kind%numVoteKinds, s.BodyArg)
 	out := &builtVote{body: body, mustAccept: true}
 	reject := func(r string) {
